@@ -19,7 +19,7 @@ import (
 func init() { register(&Check{ID: "C16", Race: true, Run: runC16, Child: childC16}) }
 
 type c16Op struct {
-	Kind string `json:"op"` // emit | upsert | upsert_api | delete
+	Kind string `json:"op"` // emit | upsert | upsert_api | delete | reload
 	Row  Row    `json:"row,omitempty"`
 	Key  []any  `json:"key,omitempty"`
 }
@@ -309,6 +309,11 @@ func genC16(ref core.CaseRef, r *rand.Rand) *c16Case {
 		case x < 8:
 			c.Ops = append(c.Ops, c16Op{Kind: pick(r, []string{"upsert", "upsert", "upsert_api"}), Row: tableRow(drawKey())})
 		default:
+			if r.Intn(4) == 0 {
+				// the table is loaded again under the same name with its current contents
+				c.Ops = append(c.Ops, c16Op{Kind: "reload"})
+				break
+			}
 			c.Ops = append(c.Ops, c16Op{Kind: "delete", Key: drawKey()})
 		}
 	}
